@@ -11,7 +11,7 @@ from .interp import NUM, BUILTIN_CLASSES, VPoison
 from .comp import CompMixin, VRange, Source
 
 LAZY_SPEC = {"requires", "ensures", "raises", "modifies", "returns", "invariant", "may_raise", "reads", "foreach",
-             "bounded", "decreases", "shares", "types", "pure", "assume_contract", "implies", "iff", "ite", "forall", "exists", "old"}
+             "bounded", "decreases", "shares", "cut_after", "types", "pure", "assume_contract", "implies", "iff", "ite", "forall", "exists", "old"}
 LOG_NAMES = {"aldy.common.log"}
 EXC_CLASSES = {"ValueError", "TypeError", "KeyError", "IndexError", "StopIteration", "AttributeError", "Exception",
                "AssertionError", "OSError", "ZeroDivisionError", "AldyException", "NoSolutionsError"}
@@ -74,6 +74,8 @@ class CallMixin(CompMixin):
             return self.call_qual(st, fn.qualname, args, kw, node)
         if k == "bound":
             return self.call_method(st, fn.recv, fn.name, args, kw, node)
+        if k == "debugmethod":
+            return VNone()
         if k == "std":
             return self.call_std(st, fn.name, args, kw, node)
         if k == "partial":
